@@ -20,6 +20,13 @@ Streams
   mro        ClassValue.py__mro__ of the last class of random acyclic class hierarchies (several,
              repeated and shared bases) vs Model.Mro.mroWith: the listing, and the number of
              elements drawn from all py__mro__ iterators vs the model's loop iterations
+  star       ModuleValue.star_imports() on generated star-import graphs (rings, self imports, two
+             rings, random, DAGs; several roots on one inference state) vs Model.StarImports.starEval:
+             listing and wrapper calls per root.  Oracle (inside e2e): generated projects whose modules
+             star-import / import each other in cycles of length 1..k, accepted by the real interpreter in
+             a fresh process; infer/goto/complete/get_references at uses of foreign names in EVERY module;
+             star-import families (chain, nested diamonds, ring): elements handed out by star_imports
+             and function calls (sys.setprofile) grow at most cubically
   scaling    (besides the families of e2e) inheritance families - chains, nested diamonds, mixin
              ladders, lattices, trees, shared mixins; complete after `x.m_`, infer / goto of an attribute
              of the root class - each family in a child process (gen/c15_inherit_child.py) that
@@ -42,7 +49,7 @@ from common import short
 from gen import c15_programs as P
 from gen import c15_inherit_child as IC
 
-MODELS = ['Recursion', 'Mro']
+MODELS = ['Recursion', 'Mro', 'StarImports']
 MANIFEST = dict(
     text='Theorems over a transcription of ExecutionRecursionDetector.push/pop, '
          'execution_recursion_decorator, execution_allowed, _memoize_default and _limit_value_infers: '
@@ -58,12 +65,20 @@ MANIFEST = dict(
          'inheritance relation on n classes contains no class twice, so its length is <= n (mro_linear), '
          'one body does <= |bases| n loop iterations and all bodies together <= |E| n (mro_work_poly), '
          'acyclic hierarchies never exhaust the stack (mro_terminates); recording the direct base instead '
-         'of the yielded class lists 2^(k+2)-3 entries on k nested diamonds (kernel-checked witness). '
+         'of the yielded class lists 2^(k+2)-3 entries on k nested diamonds (kernel-checked witness); '
+         'ModuleMixin.star_imports over ANY star-import relation on n modules (cycles of any length) returns '
+         'with nesting <= n, <= n bodies and <= 1+|E| calls as long as the memoiser stores a default '
+         '(star_imports_terminates, source instance star_imports_terminates_src over the decorator argument '
+         'and recursion test read from module.py); without the default a 2-module cycle diverges '
+         '(star_imports_no_default_diverges); the listing is not de-duplicated: 2^(k+2)-4 entries on k nested '
+         'star-import diamonds (star_imports_exponential_witness). '
          'Tie: translator (limits, cap, statement sequences of push/pop/decorator/memoize/py__mro__; the '
          'appended, tested and yielded element of py__mro__ are the same variable) + decision-by-decision '
          'correspondence on the real objects + end-to-end runs of generated cyclic programs and scaling '
          'families (definition chains/diamonds/trees in-process, inheritance families in child processes '
-         'counting MRO entries, _infer_node entries, function calls and CPU time) under a watchdog.',
+         'counting MRO entries, _infer_node entries, function calls and CPU time) under a watchdog; stream star: '
+         'real ModuleValue.star_imports vs Model.StarImports on generated star-import graphs, and generated '
+         'multi-module star-import cycle projects (accepted by the real interpreter) queried in every module.',
     note='Modelled not verified: that every inference path of jedi is built only from these combinators '
          '(sampled by streams e2e and scaling); the lazily interleaved generator cache (oracle only), hence '
          'cyclic inheritance in py__mro__; builtins/typing exemptions are flags of the pushed execution.',
@@ -945,11 +960,12 @@ def run_query(script, q, line, col):
     return out
 
 
-def e2e_one(ctx, counter, label, src, positions, cap, timeout, kind, path=None, project=None, meta=None):
+def e2e_one(ctx, counter, label, src, positions, cap, timeout, kind, path=None, project=None, meta=None,
+            queries=None):
     import jedi
     results = []
     for (line, col) in positions:
-        for q in QUERIES:
+        for q in queries or QUERIES:
             counter.reset()
             kw = {}
             if path is not None:
@@ -959,6 +975,10 @@ def e2e_one(ctx, counter, label, src, positions, cap, timeout, kind, path=None, 
                 return run_query(jedi.Script(src, **kw), q, line, col)
             how = "jedi.Script(source).%s(%d, %d)" % (q, line, col)
             case = {'label': label, 'source': src, 'query': q, 'line': line, 'column': col}
+            if meta:
+                case.update(meta)
+                how = ('files written to a directory d; jedi.Script(source, path=d/<module>, project=jedi.Project(d, '
+                       'sys_path=[d], smart_sys_path=False)).%s(%d, %d)' % (q, line, col))
             k, v, dt = guarded_confirmed(ctx, go, timeout, counter.reset)
             nonbuiltin = [n for key, n in counter.per_ctx.items() if key not in counter.generous]
             worst = max(nonbuiltin or [0])
@@ -1032,6 +1052,8 @@ def stream_e2e(ctx, cap):
                         'import-cycle', path=os.path.join(d, 'main.py'), project=proj)
             finally:
                 shutil.rmtree(d, ignore_errors=True)
+        # star-import graphs: cycles through several modules, queries in every module; families
+        stream_star(ctx, counter, cap, timeout)
         # cap probe: a module-level chain long enough to need more than `cap` entries in one context
         if cap <= 2000:
             src = P.wide_tuple(cap + 100)
@@ -1076,6 +1098,251 @@ def stream_e2e(ctx, cap):
             ctx.hist.setdefault('scaling-work', {})[fam] = work
 
 
+
+# ----------------------------------------------------------------- stream: star (import graphs)
+
+STAR_QUERIES = ['infer', 'goto', 'complete', 'get_references']
+
+
+def write_project(files):
+    d = tempfile.mkdtemp(prefix='c15star')
+    for fn, txt in files.items():
+        with open(os.path.join(d, fn), 'w') as f:
+            f.write(txt)
+    return d
+
+
+def real_python_imports(d, files):
+    """the generated project is a legitimate program: a fresh interpreter imports every module"""
+    mods = ['main'] + sorted(fn[:-3] for fn in files if fn != 'main.py')
+    p = subprocess.run([sys.executable, '-S', '-c', 'import ' + ', '.join(mods)], cwd=d, capture_output=True,
+                       text=True, env=dict(os.environ, PYTHONPATH=d, PYTHONDONTWRITEBYTECODE='1'))
+    return p.returncode == 0, p.stderr[-400:]
+
+
+class StarCounter:
+    """elements of the lists handed out by ModuleMixin.star_imports (every call, cached or not) and
+    Python-level function calls (sys.setprofile) while a query runs"""
+    def __init__(self):
+        from jedi.inference.value import module
+        self.cls = module.ModuleMixin
+        if 'star_imports' not in self.cls.__dict__:
+            raise common.TieBroken('ModuleMixin.star_imports', 'the method is gone')
+        self.items = self.calls = self.star_calls = 0
+
+    def __enter__(self):
+        self.orig = self.cls.__dict__['star_imports']
+        orig = self.orig
+        me = self
+
+        def star_imports(self_, *a, **k):
+            r = orig(self_, *a, **k)
+            me.star_calls += 1
+            me.items += len(r)
+            return r
+        self.cls.star_imports = star_imports
+        return self
+
+    def profile(self, frame, event, arg):
+        if event == 'call':
+            self.calls += 1
+
+    def measure(self, fn, timeout):
+        self.items = self.calls = self.star_calls = 0
+        sys.setprofile(self.profile)
+        try:
+            return guarded(fn, timeout)
+        finally:
+            sys.setprofile(None)
+
+    def __exit__(self, *a):
+        self.cls.star_imports = self.orig
+
+
+def star_model_view(imports, root):
+    """request for the Lean model: imports[v] = modules star-imported by v, in statement order"""
+    return {'op': 'star', 'imports': imports, 'roots': root, 'fuel': len(imports) + 1}
+
+
+def run_star_impl(files, order, roots):
+    """ModuleValue.star_imports() of the modules `roots` (one after the other on ONE inference state,
+    as the queries of one Script do), modules as indices into `order`; with the number of bodies
+    entered and wrapper calls per root (counted on the undecorated function / the wrapper)"""
+    import jedi
+    from jedi.inference.value import module as module_mod
+    d = write_project(files)
+    try:
+        proj = jedi.Project(d, sys_path=[d], smart_sys_path=False)
+        src = ''.join('import %s\n' % m for m in order)
+        script = jedi.Script(src, path=os.path.join(d, 'zz_main.py'), project=proj)
+        vals = {}
+        for i, m in enumerate(order):
+            names = script.infer(i + 1, 7 + len(m))
+            if len(names) != 1 or names[0].type != 'module':
+                return {'error': 'module %s inferred as %r' % (m, [n.description for n in names])}
+            vals[m] = names[0]._name._value
+        index = {str(v.py__file__()): i for i, (m, v) in enumerate((m, vals[m]) for m in order)}
+        cls = module_mod.ModuleMixin
+        wrapper = cls.__dict__['star_imports']
+        counters = {'calls': 0}
+
+        def counting(self_, *a, **k):
+            counters['calls'] += 1
+            return wrapper(self_, *a, **k)
+        cls.star_imports = counting
+        out = []
+        try:
+            for r in roots:
+                counters['calls'] = 0
+                try:
+                    res = vals[order[r]].star_imports()
+                except RecursionError:
+                    out.append({'error': 'fuel'})
+                    break
+                out.append({'r': [index.get(str(v.py__file__()), -1) for v in res], 'calls': counters['calls']})
+        finally:
+            cls.star_imports = wrapper
+        return out
+    finally:
+        shutil.rmtree(d, ignore_errors=True)
+
+
+def random_star_graph(rng):
+    n = rng.randint(1, 7)
+    style = rng.choice(['ring', 'random', 'dag', 'self', 'two-rings'])
+    imp = [[] for _ in range(n)]
+    for v in range(n):
+        if style == 'ring':
+            imp[v] = [(v + 1) % n] + ([rng.randrange(n)] if rng.random() < 0.3 else [])
+        elif style == 'dag':
+            imp[v] = rng.sample(range(v), rng.randint(0, min(v, 3)))
+        elif style == 'self':
+            imp[v] = [v] + [rng.randrange(n) for _ in range(rng.randint(0, 2))]
+        elif style == 'two-rings':
+            h = max(1, n // 2)
+            imp[v] = [(v + 1) % h if v < h else h + (v + 1 - h) % (n - h)] + ([0] if rng.random() < 0.3 else [])
+        else:
+            imp[v] = [rng.randrange(n) for _ in range(rng.randint(0, 3))]
+    return n, imp, style
+
+
+def stream_star_corr(ctx, reqs):
+    """correspondence: the real ModuleValue.star_imports on generated star-import graphs vs
+    Model.StarImports.starEval (listing per root, wrapper calls per root)"""
+    rng = ctx.subrng('starcorr')
+    cases = []
+    for i in range(ctx.size(40, 600)):
+        n, imp, style = random_star_graph(rng)
+        order = ['s%d' % v for v in range(n)]
+        files = {'s%d.py' % v: ''.join('from s%d import *\n' % w for w in imp[v]) + 'class S%d: pass\n' % v
+                 for v in range(n)}
+        roots = [rng.randrange(n) for _ in range(rng.randint(1, 3))]
+        case = {'imports': imp, 'roots': roots}
+        try:
+            obs = run_star_impl(files, order, roots)
+        except Exception as e:
+            cls, site = common.exc_site(e)
+            ctx.count('raised', ('star', i), nontrivial=False, bucket='%s@%s' % (cls, site))
+            continue
+        if isinstance(obs, list) and any('error' in o for o in obs):
+            ctx.fail('star', 'ModuleValue.star_imports() raises RecursionError on a star-import graph',
+                     dict(case, files=files), expected='returns', observed=obs,
+                     how='harness/props/c15.py:run_star_impl(files, order, roots)')
+        cases.append((('star', case, style), obs))
+        reqs.append({'op': 'star', 'imports': imp, 'roots': roots, 'fuel': n + 1})
+    return cases
+
+
+def stream_star(ctx, counter, cap, timeout):
+    """generated projects whose modules star-import / import each other in cycles: the real
+    interpreter imports them (fresh process); every query at uses in EVERY module returns"""
+    import jedi
+    rng = ctx.subrng('star')
+    for i in range(ctx.size(8, 120)):
+        k = rng.choice([1, 2, 2, 3, 3, 4, 5, 6])
+        files, uses, meta = P.star_project(rng, k)
+        d = write_project(files)
+        try:
+            legit, err = real_python_imports(d, files)
+            ctx.count('star-project', (tuple(sorted(files.items())),), nontrivial=legit and meta['star_cycle_len'] >= 2,
+                      bucket='star-cycle-len=%d/%s' % (meta['star_cycle_len'], 'imports-ok' if legit else 'python-rejects'),
+                      sample={'files': files, 'real_python': 'ok' if legit else err})
+            proj = jedi.Project(d, sys_path=[d], smart_sys_path=False)
+            for fn in sorted(files):
+                pos = [(l, c) for (l, c, _t) in uses[fn]]
+                if ctx.quick and len(pos) > 2:
+                    pos = rng.sample(pos, 2)
+                e2e_one(ctx, counter, 'star-project-%d' % i, files[fn], pos, cap, timeout,
+                        'star-cycle-len=%d' % meta['star_cycle_len'], path=os.path.join(d, fn), project=proj,
+                        meta={'module': fn, 'files': files}, queries=STAR_QUERIES)
+        finally:
+            shutil.rmtree(d, ignore_errors=True)
+    # scaling families over star imports: elements handed out by star_imports and function calls
+    try:
+        sc = StarCounter().__enter__()
+    except (common.TieBroken, ImportError, AttributeError) as e:
+        ctx.tie_broken('hook:ModuleMixin.star_imports', str(e))
+        return
+    try:
+        sizes = [2, 4, 8, 16] if ctx.quick else [1, 2, 3, 4, 5, 6, 7, 8, 10, 12, 14, 16, 20, 24, 32, 48, 64]
+        for fam, mk in sorted(P.STAR_FAMILIES.items()):
+            work = {}
+            for n in sizes:
+                files, main = mk(n)
+                d = write_project(files)
+                try:
+                    proj = jedi.Project(d, sys_path=[d], smart_sys_path=False)
+                    line, col = P.last_pos(main)
+                    stop = False
+                    for q in ('infer', 'complete'):
+                        k, v, dt = sc.measure(lambda: run_query(jedi.Script(
+                            main, path=os.path.join(d, 'main.py'), project=proj), q, line, col), timeout)
+                        w = [sc.items, sc.calls]
+                        work.setdefault(q, {})[n] = w
+                        ctx.count('scaling', (fam, n, q), nontrivial=k == 'ok' and bool(v), bucket=fam,
+                                  sample={'family': fam, 'n': n, 'query': q, 'modules': len(files),
+                                          'star_items': sc.items, 'star_calls': sc.star_calls, 'calls': sc.calls,
+                                          'seconds': round(dt, 3), 'outcome': k})
+                        case = {'family': fam, 'n': n, 'query': q, 'source': main, 'line': line, 'column': col,
+                                'module': 'main.py', 'files': files if len(files) <= 12 else
+                                'gen.c15_programs.STAR_FAMILIES[%r](%d)[0]' % (fam, n)}
+                        how = ('files = gen.c15_programs.STAR_FAMILIES[family](n)[0] written to d; jedi.Script(source, '
+                               'path=d/main.py, project=jedi.Project(d, sys_path=[d], smart_sys_path=False)).%s(%d, %d), '
+                               'counting len() of every list returned by ModuleMixin.star_imports and `call` events '
+                               'of sys.setprofile' % (q, line, col))
+                        if k in ('hang', 'RecursionError'):
+                            ctx.fail('scaling', 'query on a star-import family %s'
+                                     % ('hangs' if k == 'hang' else 'raises RecursionError'), case,
+                                     observed={'outcome': k, 'dominant_frame': dominant_frame(v) if k != 'hang' else None},
+                                     how=how)
+                            stop = True
+                        elif k == 'raised':
+                            cls_, site = common.exc_site(v)
+                            ctx.count('raised', (fam, n, q), nontrivial=False, bucket='%s@%s' % (cls_, site))
+                        half = work[q].get(n // 2) if n % 2 == 0 else None
+                        if k == 'ok' and half and n >= 8:
+                            for idx, nm, slack in ((0, 'module lists handed out by star_imports', 64),
+                                                   (1, 'function calls made by the query', 200000)):
+                                if w[idx] > 8 * half[idx] + slack:
+                                    ctx.fail('scaling', '%s grow faster than any cubic between n and 2n' % nm, case,
+                                             expected={'work(2n)<=': 8 * half[idx] + slack},
+                                             observed={'work(n)': half[idx], 'work(2n)': w[idx],
+                                                       'all': {str(m): x[idx] for m, x in sorted(work[q].items())}},
+                                             how=how)
+                                    stop = True
+                                    break
+                        if stop:
+                            break
+                finally:
+                    shutil.rmtree(d, ignore_errors=True)
+                if stop:
+                    break       # larger members only cost more
+            ctx.hist.setdefault('scaling-work', {})[fam] = {q: {str(n): x for n, x in sorted(w.items())}
+                                                             for q, w in work.items()}
+    finally:
+        sc.__exit__()
+
+
 def name_positions(src):
     import re
     out = []
@@ -1111,6 +1378,10 @@ def compare(ctx, cases, answers):
         elif stream == 'guard':
             ctx.count('guard', key[1], nontrivial=impl.get('ok', 0) > 1, bucket=key[2],
                       sample={'case': key[1], 'result': impl})
+        elif stream == 'star':
+            ctx.count('star', (key[1]['imports'], key[1]['roots']), bucket=key[2],
+                      nontrivial=key[2] != 'dag' and isinstance(impl, list) and any(len(o.get('r', [])) > 1 for o in impl),
+                      sample={'case': key[1], 'impl': impl})
         elif stream == 'limit':
             ctx.count('limit', (key[1]['seed_index'], tuple(map(tuple, key[2]))), nontrivial=not all(impl),
                       bucket=key[1]['style'], sample={'case': key[1], 'refused': impl.count(False)})
@@ -1157,6 +1428,8 @@ def run(ctx):
     lap('guard+limit')
     cases += stream_mro(ctx, reqs)
     lap('mro')
+    cases += stream_star_corr(ctx, reqs)
+    lap('starcorr')
     # the Lean driver works on the requests in background processes while the end-to-end streams run
     from concurrent.futures import ThreadPoolExecutor
     pool = ThreadPoolExecutor(1)
@@ -1222,6 +1495,21 @@ def replay(ctx, payload):
                 print('child killed after 300 s')
             if etxt.strip():
                 print(etxt[-1500:])
+    elif isinstance(inp, dict) and 'imports' in inp and 'files' in inp:
+        print(run_star_impl(inp['files'], ['s%d' % v for v in range(len(inp['imports']))], inp['roots']))
+    elif isinstance(inp, dict) and 'files' in inp and 'query' in inp:
+        files = inp['files'] if isinstance(inp['files'], dict) else P.STAR_FAMILIES[inp['family']](inp['n'])[0]
+        d = write_project(files)
+        try:
+            proj = jedi.Project(d, sys_path=[d], smart_sys_path=False)
+            with StarCounter() as sc:
+                k, v, dt = sc.measure(lambda: run_query(jedi.Script(
+                    inp['source'], path=os.path.join(d, inp['module']), project=proj), inp['query'], inp['line'],
+                    inp['column']), 120)
+                print('outcome:', k, 'value:', v if k == 'ok' else repr(v), 'seconds: %.2f' % dt,
+                      'elements handed out by star_imports:', sc.items, 'function calls:', sc.calls)
+        finally:
+            shutil.rmtree(d, ignore_errors=True)
     elif 'source' in inp and 'query' in inp:
         with InferCounter() as counter:
             k, v, dt = guarded(lambda: run_query(jedi.Script(inp['source']), inp['query'], inp['line'],
